@@ -204,7 +204,20 @@ func (r *Run) Explore(s Spec) Result {
 							}
 							a := s.Exec(append(append([]int{}, rep...), op))
 							b := s.Exec(append(append([]int{}, sc.hist...), op))
-							if a.Key != b.Key || a.Err != b.Err {
+							if a.Err != "" || b.Err != "" {
+								// one of the two representatives violates the oracle on this op: that is a finding about the
+								// code (possibly hidden state the key cannot see), not a harness problem
+								if a.Err != "" {
+									h := append(append([]int{}, rep...), op)
+									r.Violation(a.Err, a.What, map[string]interface{}{"search": s.Name, "ops": names(h), "op_ids": h})
+								}
+								if b.Err != "" {
+									h := append(append([]int{}, sc.hist...), op)
+									r.Violation(b.Err, b.What, map[string]interface{}{"search": s.Name, "ops": names(h), "op_ids": h})
+								}
+								continue
+							}
+							if a.Key != b.Key {
 								res.MergeMismatch++
 								Fatalf("%s: state key too coarse: histories %v and %v share key but diverge on op %s (%q/%q vs %q/%q)",
 									s.Name, names(rep), names(sc.hist), s.OpName(op), a.Key, a.Err, b.Key, b.Err)
